@@ -1,17 +1,53 @@
 package ed
 
-import "github.com/openebs/jiva/verifshim/vs"
+import (
+	"sync"
 
-type C10Cfg struct{ Name string }
+	"github.com/openebs/jiva/replica"
+)
 
-func (c C10Cfg) String() string { return c.Name }
-func runC10(c *C10Cfg, ch vs.Chooser, trace bool) (*Outcome, *vs.Result) {
-	return nil, &vs.Result{Fatal: "C10conc not built"}
-}
-
-type C05Cfg struct{ Name string }
-
-func (c C05Cfg) String() string { return c.Name }
-func runC05(c *C05Cfg, ch vs.Chooser, trace bool) (*Outcome, *vs.Result) {
-	return nil, &vs.Result{Fatal: "C05mon not built"}
+// raceC10 runs the C10conc bodies free (no scheduler) for the race detector.
+func raceC10() int {
+	r, err := c10Replica()
+	if err != nil {
+		return 0
+	}
+	defer C10Cleanup()
+	runs := 0
+	for rep := 0; rep < 20; rep++ {
+		for _, cf := range c10Configs("quick") {
+			r.SetReplicaMode("RW")
+			var wg sync.WaitGroup
+			blk := 0
+			for _, ws := range cf.Writers {
+				n := len(ws)
+				b0 := blk
+				blk += n
+				wg.Add(1)
+				go func() {
+					defer wg.Done()
+					for k := 0; k < n; k++ {
+						r.WriteAt(make([]byte, c10Block), int64((b0+k)%c10Blocks)*c10Block)
+					}
+				}()
+			}
+			if cf.Reader > 0 {
+				wg.Add(1)
+				go func() {
+					defer wg.Done()
+					for i := 0; i < cf.Reader; i++ {
+						r.GetRevisionCounter()
+					}
+				}()
+			}
+			if cf.Flip != "" {
+				wg.Add(1)
+				go func() { defer wg.Done(); r.SetReplicaMode("WO") }()
+			}
+			wg.Wait()
+			_ = replica.VerifEdMode(r)
+			runs++
+		}
+	}
+	return runs
 }
